@@ -96,7 +96,7 @@ func init() {
 			{Pkg: "bkl", Func: "HarnessC06_identity", Tiers: "qt", Covers: []string{"identity.checked"},
 				Bound: "document {K1:V1, m:{K3:V3, x:leaf}, l:[V4, leaf]}: one of the five string positions is every printable-ASCII byte string of length <= 6 (quick) / 8 (thorough) satisfying plain(); a second position takes each of 14 plain look-alikes ($FOO, ${X}, $(cmd), $, $A, $\"x, ...); leaves nil/7 (quick) or symbolic-kind scalars incl. nil (thorough)"},
 			{Pkg: "bkl", Func: "HarnessC06_escape", Tiers: "qt", Covers: []string{"escape.single", "escape.layered"},
-				Bound: "same skeleton, the symbolic string unconstrained; second position from 31 tokens incl. every directive name; $ doubled in keys and values; evaluated alone and as the child of a layer"},
+				Bound: "same skeleton (strings also repeated below a list-in-list), the symbolic string unconstrained (<= 6 bytes; thorough <= 7 with the second position free); second position from 31 tokens incl. every directive name; $ doubled in keys and values; evaluated alone and as the child of a layer"},
 			{Pkg: "bkl", Func: "HarnessC06_unicode", Tiers: "qt", Covers: []string{"unicode.checked"},
 				Bound: "\"$\" + one of É € 日 😀 → × (2-, 3-, 4-byte UTF-8, none a lower-case letter) + every printable tail of <= 2 bytes, as value, key and list entry, plain and $-doubled"},
 			{Pkg: "bkl", Func: "HarnessC06_keys", Tiers: "qt", Covers: []string{"keys.checked"},
@@ -153,7 +153,7 @@ func init() {
 			{Pkg: "bkl", Func: "HarnessC11_dupmarkers", Tiers: "qt", Covers: []string{"dupmarkers.checked"},
 				Bound: "a list carrying its $output marker entry 2-3 times (front, middle, back) around two entries of depth <= 1, in a plain or a hidden parent: same outputs as with the marker once, no marker in any output"},
 			{Pkg: "bkl", Func: "HarnessC11_output", Tiers: "qt", Covers: []string{"out.one", "out.multi", "out.none"},
-				Bound: "one document of depth <= 2 (quick) / 3 (thorough): maps over {a,b} with $output true/false/absent, lists <= 2 with a marker entry true/false/absent at front or back; distinct concrete leaves"},
+				Bound: "one document of depth <= 2 (thorough: a root map, marked true/false/not, over a depth-2 and a depth-1 subtree): maps over {a,b} with $output true/false/absent, lists <= 2 with a marker entry true/false/absent at front or back; distinct concrete leaves"},
 			{Pkg: "bkl", Func: "HarnessC11_stream", Tiers: "qt", Covers: []string{"out.one", "out.multi", "out.none"},
 				Bound: "two documents (depth <= 2 and <= 1), whole documents may be hidden"},
 			{Pkg: "bkl", Func: "HarnessC11_spine", Tiers: "qt", Covers: []string{"out.one", "out.multi", "out.none"},
